@@ -3,6 +3,7 @@ CONSTANTS
   Peers = {"h1", "l1"}
   Honest = {"h1"}
   ValsAt <- MC_ValsAt
+  NilAt = {2}
   LieKinds <- MC_LieCommit
   LiarStatus <- MC_StatusTip
   MaxLies = 1
@@ -13,6 +14,7 @@ CONSTANTS
   Weak_SaveBeforeValidate = FALSE
   Weak_NoRedo = FALSE
   Weak_SeenCommitUnchecked = FALSE
+  Weak_NilSlotAddressUnchecked = FALSE
   Weak_StaleMaxPeerHeight = FALSE
   Weak_NoBlockValidation = FALSE
   Weak_PartSetNotCompared = FALSE
